@@ -89,6 +89,14 @@ def boundary_molecules(rng, n_random):
             m.add_bond(i, i + 1, rng.choice([1, 2, 3, 4, 8, 1, 1]), _skip_calculation=True)
         m.fix_structure()
         out.append(('chain', m))
+    # atom count above 255: the 12 bit count straddles two header bytes
+    m = MoleculeContainer()
+    for i in range(300):
+        m.add_atom('C', _skip_calculation=True)
+    for i in range(1, 300):
+        m.add_bond(i, i + 1, 1, _skip_calculation=True)
+    m.fix_structure()
+    out.append(('chain300', m))
     # high degree: 15 neighbours
     m = MoleculeContainer()
     m.add_atom('U', _skip_calculation=True)
@@ -243,7 +251,55 @@ def corr_malformed(ck, unpack_mod, mols, rng):
                 if e2:
                     cases.append(f'pyres_eqb Z.eqb (mol_pack_len {lst(list(bb[:6]), zraw)}) ({e2})')
                     meta.append(('pack_len-header', str(m), i, bb[i]))
-    ok, failing, log = coqcases.run_cases('c10m', 'Pack PackSpec', cases, extra=EXTRA, shard=150)
+    # every bit of the 12 bit cis/trans count of the header, with enough (arbitrary) records behind a valid pack: counts
+    # above 2047 cannot come from a molecule with at most 4095 atoms, the model and the theorems cover them nevertheless
+    from chython import smiles
+    base = bytes(smiles('CC=O').pack(compressed=False))
+    for bit in range(12):
+        cnt = 1 << bit
+        bb = bytearray(base)
+        bb[2] = (bb[2] & 0xf0) | (cnt >> 8)
+        bb[3] = cnt & 0xff
+        bb = bytes(bb) + bytes(rng.randrange(256) for _ in range(4 * cnt))
+        ck.case(('ct-bit', bit))
+        ck.count('malformed:ct-count-bit')
+        try:
+            mol2, ct2, size2 = unpack_mod.unpack(bb)
+            exp = f'Ok {unpacked_term(mol2, ct2, size2, bb)}'
+        except (IndexError, KeyError) as e:
+            exp = f'Err {type(e).__name__}'
+        cases.append(f'pyres_eqb unpacked_eqb (unpack {lst(list(bb), zraw)}) ({exp})')
+        meta.append(('ct-bit', bit))
+    # molecules outside the limits checked by MoleculeContainer.pack: ValueError (model: PackApi.mol_pack)
+    outside = []
+    m = smiles('CCO')
+    m.remap({1: 4096})
+    outside.append(m)
+    m = MoleculeContainer()
+    m.add_atom('U', _skip_calculation=True)
+    for i in range(16):
+        m.add_atom('F', _skip_calculation=True)
+        m.add_bond(1, i + 2, 1, _skip_calculation=True)
+    m.fix_structure()
+    outside.append(m)
+    outside.append(MoleculeContainer())
+    for m in outside:
+        ck.case(('outside', len(m), tuple(m._atoms)))
+        ck.count('malformed:outside-limits')
+        try:
+            m.pack(compressed=False)
+            ck.counterexample(f'limits-not-checked:{list(m._atoms)[:3]}', 'MoleculeContainer.pack accepts a molecule outside the documented limits', {'numbers': list(m._atoms)},
+                              'bytes', 'ValueError', 'documented limits')
+            continue
+        except ValueError:
+            pass
+        cases.append(f'pyres_eqb (list_eqb Z.eqb) (mol_pack true {pmol_term(m, bytes(9 * len(m) + 13))}) (Err ValueError)')
+        meta.append(('outside', list(m._atoms)[:3]))
+    for kind, m in picked[:10]:
+        data = bytes(m.pack(compressed=False))
+        cases.append(f'pyres_eqb (list_eqb Z.eqb) (mol_pack true {pmol_term(m, data)}) (Ok {lst(list(data), zraw)})')
+        meta.append(('mol_pack', str(m)))
+    ok, failing, log = coqcases.run_cases('c10m', 'Pack PackSpec PackApi', cases, extra=EXTRA, shard=150)
     ck.oblige('correspondence on malformed packs: truncations and corrupted bytes, unpack/pack_len == Coq model', ok and not failing, 'correspondence',
               log or str([meta[i] for i in failing[:5]]))
     ck.extra['correspondence_cases'] = ck.extra.get('correspondence_cases', 0) + len(cases)
@@ -276,10 +332,19 @@ def corr_reactions(ck, rng):
             exp = 'Ok (' + ', '.join(lst(x, zraw) for x in ln) + ')'
         except IndexError:
             exp = 'Err IndexError'
+        except Exception as e:
+            ck.counterexample(f'rxn-raises:{r}{a}{p}', f'reaction pack_len raises {type(e).__name__} (role sizes {r},{a},{p})', {'reaction': str(rx)},
+                              repr(e), 'atom counts', 'API', replay_py=REPLAY_PRE + f'r=smiles({str(rx)!r}); print(ReactionContainer.pack_len(r.pack()))')
+            continue
         cases.append(f'pyres_eqb lens_eqb (rxn_pack_len {lst(list(data), zraw)}) ({exp})')
         meta.append(('rxn_pack_len', r, a, p))
         # role split of unpack: compare sizes of the three roles and the atom counts inside
-        u = ReactionContainer.unpack(data, compressed=False)
+        try:
+            u = ReactionContainer.unpack(data, compressed=False)
+        except Exception as e:
+            ck.counterexample(f'rxn-raises:{r}{a}{p}', f'reaction unpack raises {type(e).__name__} (role sizes {r},{a},{p})', {'reaction': str(rx)},
+                              repr(e), 'round trip', 'API round trip', replay_py=REPLAY_PRE + f'r=smiles({str(rx)!r}); print(ReactionContainer.unpack(r.pack()))')
+            continue
         got = ([len(x) for x in u.reactants], [len(x) for x in u.reagents], [len(x) for x in u.products])
         cases.append('pyres_eqb lens_eqb (match rxn_unpack ' + lst(list(data), zraw) + ' with Ok (x, y, z) => '
                      'Ok (map (fun u => Z.of_nat (List.length (up_atoms u))) x, map (fun u => Z.of_nat (List.length (up_atoms u))) y, '
